@@ -68,7 +68,7 @@ def gen_series(r, tier='quick', **force):
     # per-file metadata patterns over (s,t,v)
     nkeys = r.randint(2, 6)
     pool = list(PAT_KEYS)
-    inst_desc = ordering == 'guess_file' and r.random() < 0.5
+    inst_desc = ordering == 'guess_file' and (bool(force['inst_desc']) if 'inst_desc' in force else r.random() < 0.5)
     if ordering in ('guess_vol', 'guess_file', 'none'):
         # keys of DicomStack.sort_guesses must not offer the guesser another grid than (s, t, v)
         pool = [k for k in pool if k not in ('InversionTime', 'AcquisitionNumber')]
